@@ -79,6 +79,15 @@ theorem C07_snapshot_transparent (H : List Nat → η) (s : Frag η) (hw : WF H 
     · exact Or.inl ⟨hk, rfl⟩
     · exact Or.inr ⟨hk, rfl, trivial⟩)⟩
 
+/-- A restart (close + reopen) changes no answer either: the stored set and well-formedness are
+kept, the caches start empty. -/
+theorem C07_reopen_transparent (H : List Nat → η) (s : Frag η) (hw : WF H s) :
+    (step H s .reopen).1.bits = s.bits ∧ (step H s .reopen).1.kind = s.kind ∧ WF H (step H s .reopen).1 :=
+  ⟨rfl, rfl, wf_step hw .reopen (by
+    by_cases hk : s.kind = .set
+    · exact Or.inl ⟨hk, rfl⟩
+    · exact Or.inr ⟨hk, rfl, trivial⟩)⟩
+
 /-- All finite histories (snapshot steps at arbitrary positions are ordinary members of `ops`):
 every answer along the history is the specification's answer on the specification's state
 (setRow's `changed` excepted, see above), and the final storage is the writes applied in order. -/
